@@ -118,14 +118,14 @@ def bfs(start, max_depth, yield_self):
 
 @obligation("C14", "traversals", shards=16, budget={"quick": 400, "thorough": 1200},
             expect=["document-start", "section-start"],
-            bounds="1 Document + 4 Sections (every shape) + 2 Properties (one in a symbolic Section), start = Document or any Section; for each such tree and "
+            bounds="1 Document + 4 Sections (every shape) + 2 Properties (one of them without values, in a symbolic Section), start = Document or any Section; for each such tree and "
                    "start, every max_depth in {None, 0, 1, 2, 3} x yield_self x name filter on/off is checked")
 def traversals_ob(v):
     """itersections / iterproperties / itervalues yield each object below the start exactly once, breadth first, within depth and filter."""
     import odml
     uni = _distinct_universe(v)
     odml.Property(name="p0", values=[0, 10], parent=uni.secs[0])
-    odml.Property(name="p1", values=[1, 11], parent=v.pick("pholder", uni.secs))
+    odml.Property(name="p1", parent=v.pick("pholder", uni.secs))       # no values: itervalues still yields its (empty) list
     start = v.pick("start", uni.docs + uni.secs)
     v.label("document-start" if C.is_doc(start) else "section-start")
     for max_depth in (None, 0, 1, 2, 3):
